@@ -435,70 +435,108 @@ Proof.
     rewrite (unq_raw w Hw). reflexivity.
 Qed.
 
-(* quoted text *)
-Lemma quoted_value_leads : forall pre msg x a post p ok cn ct r,
-  msg = a +++ String sq (dbl sq x +++ String sq "") +++ post ->
+(* quoted text (pfx = "") and bit strings (pfx = "B"): [pfx]'<doubled text>' *)
+Lemma quoted_value_leads : forall pre msg pfx x a post p ok cn ct r,
+  (pfx = "" \/ pfx = "B") ->
+  msg = a +++ pfx +++ String sq (dbl sq x +++ String sq "") +++ post ->
   (post = "" \/ exists post', post = String " " post') ->
   after_value pre msg (length a) (mkSt SColValue p (length a) ok cn ct) r post
-              (length a + length (String sq (dbl sq x +++ String sq ""))) ok
+              (length a + length (pfx +++ String sq (dbl sq x +++ String sq ""))) ok
               (set_col ok cn (mkCV x ct true) r).
 Proof.
-  intros pre msg x a post p ok cn ct r Hmsg Hpost.
+  intros pre msg pfx x a post p ok cn ct r Hpfx Hmsg Hpost.
   set (lit := dbl sq x) in *.
-  assert (Hm1 : msg = (a +++ String sq "") +++ lit +++ String sq post).
-  { rewrite Hmsg. rewrite !sapp_assoc. simpl. rewrite !sapp_assoc. reflexivity. }
-  assert (Hl1 : length (a +++ String sq "") = S (length a)) by (rewrite slen_app; simpl; lia).
-  assert (Hm2 : msg = ((a +++ String sq "") +++ lit) +++ String sq post) by (rewrite sapp_assoc; exact Hm1).
-  assert (Hl2 : length ((a +++ String sq "") +++ lit) = S (length a) + length lit)
+  set (A := a +++ pfx).
+  assert (HlA : length A = length a + length pfx) by (unfold A; apply slen_app).
+  assert (Hm0 : msg = A +++ String sq (lit +++ String sq "") +++ post)
+    by (rewrite Hmsg; unfold A; rewrite !sapp_assoc; reflexivity).
+  assert (Hm1 : msg = (A +++ String sq "") +++ lit +++ String sq post).
+  { rewrite Hm0. rewrite !sapp_assoc. simpl. rewrite !sapp_assoc. reflexivity. }
+  assert (Hl1 : length (A +++ String sq "") = S (length A)) by (rewrite slen_app; simpl; lia).
+  assert (Hm2 : msg = ((A +++ String sq "") +++ lit) +++ String sq post) by (rewrite sapp_assoc; exact Hm1).
+  assert (Hl2 : length ((A +++ String sq "") +++ lit) = S (length A) + length lit)
     by (rewrite slen_app, Hl1; reflexivity).
-  assert (Hm3 : msg = (((a +++ String sq "") +++ lit) +++ String sq "") +++ post)
+  assert (Hm3 : msg = (((A +++ String sq "") +++ lit) +++ String sq "") +++ post)
     by (rewrite Hm2, !sapp_assoc; reflexivity).
-  assert (Hl3 : length (((a +++ String sq "") +++ lit) +++ String sq "") = S (S (length a + length lit)))
+  assert (Hl3 : length (((A +++ String sq "") +++ lit) +++ String sq "") = S (S (length A + length lit)))
     by (rewrite slen_app, Hl2; simpl; lia).
-  assert (Hlen : length msg = S (S (length a + length lit)) + length post)
+  assert (Hlen : length msg = S (S (length A + length lit)) + length post)
     by (rewrite Hm3, slen_app, Hl3; reflexivity).
-  assert (Hlitlen : length (String sq (lit +++ String sq "")) = S (S (length lit)))
-    by (simpl; rewrite slen_app; simpl; lia).
+  assert (Hlitlen : length (pfx +++ String sq (lit +++ String sq "")) = length pfx + S (S (length lit)))
+    by (rewrite slen_app; simpl; rewrite slen_app; simpl; lia).
+  (* the prefix (nothing, or B) *)
+  assert (L0 : leads pre msg (length a) (mkSt SColValue p (length a) ok cn ct) r
+                     (length A) (mkSt SColValue p (length a) ok cn ct) r).
+  { rewrite HlA. apply (raw_leads pre msg pfx a _ p (length a) ok cn ct r Hmsg); [|lia].
+    destruct Hpfx as [-> | ->]; reflexivity. }
   (* opening quote *)
-  assert (L1 : leads pre msg (length a) (mkSt SColValue p (length a) ok cn ct) r
-                     (S (length a)) (mkSt SQuoted SColValue (length a) ok cn ct) r).
+  assert (L1 : leads pre msg (length A) (mkSt SColValue p (length a) ok cn ct) r
+                     (S (length A)) (mkSt SQuoted SColValue (length a) ok cn ct) r).
   { apply leads_step; [lia | | lia]. body_simpl.
-    assert (Hb : byte_at msg (length a) = sq) by (rewrite Hmsg, byte_at_app; reflexivity).
+    assert (Hb : byte_at msg (length A) = sq) by (rewrite Hm0, byte_at_app; reflexivity).
     rewrite Hb. reflexivity. }
   (* the doubled text *)
-  pose proof (quoted_leads pre msg x (a +++ String sq "") (String sq post) (length a) ok cn ct r Hm1
+  pose proof (quoted_leads pre msg x (A +++ String sq "") (String sq post) (length a) ok cn ct r Hm1
                 ltac:(rewrite Hl1; lia)) as L2.
   rewrite Hl1 in L2. fold lit in L2.
   (* closing quote: the next byte is a space or the end, not a quote *)
-  assert (L3 : leads pre msg (S (length a) + length lit) (mkSt SQuoted SColValue (length a) ok cn ct) r
-                     (S (S (length a + length lit))) (mkSt SColValue SQuoted (length a) ok cn ct) r).
+  assert (L3 : leads pre msg (S (length A) + length lit) (mkSt SQuoted SColValue (length a) ok cn ct) r
+                     (S (S (length A + length lit))) (mkSt SColValue SQuoted (length a) ok cn ct) r).
   { apply leads_step; [lia | | lia]. body_simpl.
-    assert (Hb : byte_at msg (S (length a) + length lit) = sq)
+    assert (Hb : byte_at msg (S (length A) + length lit) = sq)
       by (rewrite <- Hl2; rewrite Hm2 at 1; rewrite byte_at_app; reflexivity).
-    assert (Hn : byte_at msg (S (S (length a) + length lit)) = head_byte post)
+    assert (Hn : byte_at msg (S (S (length A) + length lit)) = head_byte post)
       by (rewrite <- Hl2; rewrite Hm2 at 1; apply byte_at_app_S).
     rewrite Hb, Hn. simpl.
     destruct Hpost as [-> | [post' ->]]; reflexivity. }
-  assert (Hsl : slice msg (S (length a)) (S (length a) + length lit) = Some lit).
+  assert (Hsl : slice msg (S (length A)) (S (length A) + length lit) = Some lit).
   { rewrite <- Hl1. rewrite Hm1 at 1. apply slice_mid. }
-  assert (Hb4 : byte_at msg (S (S (length a + length lit))) = head_byte post).
+  assert (Hb4 : byte_at msg (S (S (length A + length lit))) = head_byte post).
   { rewrite <- Hl3. rewrite Hm3 at 1. apply byte_at_app. }
-  assert (L123 := leads_trans _ _ _ _ _ _ _ _ _ _ _ L1 (leads_trans _ _ _ _ _ _ _ _ _ _ _ L2 L3)).
+  (* what the store reads at TokenStart: the quote itself, or B followed by the quote *)
+  assert (Hstore : match get (length a) msg with
+                   | None => None
+                   | Some b0 =>
+                       match (if Ascii.eqb b0 "B" then
+                                match get (S (length a)) msg with
+                                | None => None
+                                | Some b1 => Some (if Ascii.eqb b1 sq then S (length a) else length a)
+                                end
+                              else Some (length a)) with
+                       | Some s0 => slice msg (S s0) (S (length A + length lit))
+                       | None => None
+                       end
+                   end = Some lit).
+  { simpl in Hsl. destruct Hpfx as [-> | ->].
+    - assert (HA : length A = length a) by (rewrite HlA; simpl; lia).
+      rewrite (get_some msg (length a)) by lia.
+      assert (Hb : byte_at msg (length a) = sq) by (rewrite Hmsg, byte_at_app; reflexivity).
+      rewrite Hb. simpl. rewrite <- HA. exact Hsl.
+    - assert (HA : length A = S (length a)) by (rewrite HlA; simpl; lia).
+      rewrite (get_some msg (length a)) by lia.
+      assert (Hb : byte_at msg (length a) = "B"%char) by (rewrite Hmsg, byte_at_app; reflexivity).
+      rewrite Hb. simpl.
+      rewrite (get_some msg (S (length a))) by lia.
+      assert (Hb1 : byte_at msg (S (length a)) = sq)
+        by (rewrite Hmsg; simpl; rewrite byte_at_app_S; reflexivity).
+      rewrite Hb1. simpl. rewrite <- HA. exact Hsl. }
+  assert (L0123 := leads_trans _ _ _ _ _ _ _ _ _ _ _ L0
+                     (leads_trans _ _ _ _ _ _ _ _ _ _ _ L1 (leads_trans _ _ _ _ _ _ _ _ _ _ _ L2 L3))).
   split.
   - intros ->. simpl in Hb4, Hlen.
-    eexists. split; [|eapply leads_trans; [exact L123|]].
+    eexists. split; [|eapply leads_trans; [exact L0123|]].
     2:{ apply leads_step with (i' := S (length msg)); [lia | | lia].
-        body_simpl. rewrite Hb4. simpl. simpl in Hsl. rewrite Hsl.
+        body_simpl. rewrite Hb4. simpl. rewrite Hstore.
         unfold lit. rewrite unq_dbl.
-        replace (S (S (S (length a + length (dbl sq x))))) with (S (length msg)) by (fold lit; lia).
+        replace (S (S (S (length A + length (dbl sq x))))) with (S (length msg)) by (fold lit; lia).
         reflexivity. }
     reflexivity.
   - intros post' ->. simpl in Hb4.
-    exists cn, ct. eapply leads_trans; [exact L123|].
+    exists cn, ct. eapply leads_trans; [exact L0123|].
     rewrite Hlitlen.
-    replace (S (length a + S (S (length lit)))) with (S (S (S (length a + length lit)))) by lia.
+    replace (S (length a + (length pfx + S (S (length lit))))) with (S (S (S (length A + length lit)))) by lia.
     apply leads_step; [simpl in Hlen; lia | | lia].
-    body_simpl. rewrite Hb4. simpl. simpl in Hsl. rewrite Hsl.
+    body_simpl. rewrite Hb4. simpl. rewrite Hstore.
     unfold lit. rewrite unq_dbl. reflexivity.
 Qed.
 
@@ -513,19 +551,29 @@ Proof.
     eapply leads_trans; eassumption.
 Qed.
 
+Lemma dbl_nosq : forall b, str_all not_sq b = true -> dbl sq b = b.
+Proof.
+  induction b as [|c b IH]; [reflexivity|]. simpl. intros H.
+  apply andb_prop in H. destruct H as [Hc Hb]. unfold not_sq in Hc. apply negb_true_iff in Hc.
+  now rewrite Hc, IH.
+Qed.
+
 Lemma value_leads : forall pre msg v a post p ok cn ct r,
-  msg = a +++ print_value v +++ post -> value_ok v = true -> is_bit v = false -> p <> SQuoted ->
+  msg = a +++ print_value v +++ post -> value_ok v = true -> p <> SQuoted ->
   (post = "" \/ exists post', post = String " " post') ->
   after_value pre msg (length a) (mkSt SColValue p (length a) ok cn ct) r post
               (length a + length (print_value v)) ok
               (set_col ok cn (mkCV (fst (exp_val v)) ct (snd (exp_val v))) r).
 Proof.
-  intros pre msg v a post p ok cn ct r Hmsg Hv Hb Hp Hpost. destruct v; simpl in *.
+  intros pre msg v a post p ok cn ct r Hmsg Hv Hp Hpost. destruct v; simpl in *.
   - apply unquoted_value_leads; [exact Hmsg | reflexivity | exact Hp].
   - apply unquoted_value_leads; [exact Hmsg | reflexivity | exact Hp].
   - apply unquoted_value_leads; [exact Hmsg | exact Hv | exact Hp].
-  - discriminate.
-  - apply (quoted_value_leads pre msg s a post p ok cn ct r Hmsg Hpost).
+  - (* bit string: B'<digits>' *)
+    pose proof (quoted_value_leads pre msg "B" bits a post p ok cn ct r (or_intror eq_refl)) as Q.
+    rewrite (dbl_nosq bits Hv) in Q. apply Q; [|exact Hpost].
+    rewrite Hmsg. repeat (first [rewrite !sapp_assoc | progress simpl]). reflexivity.
+  - apply (quoted_value_leads pre msg "" s a post p ok cn ct r (or_introl eq_refl) Hmsg Hpost).
 Qed.
 
 (* ------------------------------------------------------------------------------------------ *)
@@ -618,13 +666,13 @@ Lemma print_tuple_cons : forall c r, print_tuple (c :: r) = String " " (colbody 
 Proof. reflexivity. Qed.
 
 Lemma column_leads : forall pre msg c a post p ok cn0 ct0 r,
-  msg = a +++ colbody c +++ post -> col_ok c = true -> is_bit (c_val c) = false -> p <> SQuoted ->
+  msg = a +++ colbody c +++ post -> col_ok c = true -> p <> SQuoted ->
   (post = "" \/ exists post', post = String " " post') ->
   after_value pre msg (length a) (mkSt SColName p (length a) ok cn0 ct0) r post
               (length a + length (colbody c)) ok
               (set_col ok (quote_ident (c_name c)) (exp_colval c) r).
 Proof.
-  intros pre msg c a post p ok cn0 ct0 r Hmsg Hok Hbit Hp Hpost.
+  intros pre msg c a post p ok cn0 ct0 r Hmsg Hok Hp Hpost.
   unfold col_ok in Hok. apply andb_prop in Hok. destruct Hok as [Hty Hv].
   unfold colbody in *.
   apply column_generic; [exact Hmsg | | exact Hty | exact Hp |].
@@ -641,25 +689,22 @@ Qed.
 Definition set_cols (ok : bool) (t : tuple) (r : parse_result) : parse_result :=
   fold_left (fun r c => set_col ok (quote_ident (c_name c)) (exp_colval c) r) t r.
 
-Definition tuple_nobit (t : tuple) : bool := forallb (fun c => negb (is_bit (c_val c))) t.
-
 Lemma tuple_leads : forall pre msg rest c a fin p ok cn0 ct0 r,
   msg = a +++ colbody c +++ print_tuple rest +++ fin ->
-  tuple_ok (c :: rest) = true -> tuple_nobit (c :: rest) = true -> p <> SQuoted ->
+  tuple_ok (c :: rest) = true -> p <> SQuoted ->
   (fin = "" \/ exists fin', fin = String " " fin') ->
   after_value pre msg (length a) (mkSt SColName p (length a) ok cn0 ct0) r fin
               (length a + length (colbody c +++ print_tuple rest)) ok (set_cols ok (c :: rest) r).
 Proof.
-  intros pre msg. induction rest as [|c2 rest IH]; intros c a fin p ok cn0 ct0 r Hmsg Hok Hnb Hp Hfin.
+  intros pre msg. induction rest as [|c2 rest IH]; intros c a fin p ok cn0 ct0 r Hmsg Hok Hp Hfin.
   - simpl in Hmsg. simpl print_tuple. rewrite sapp_nil_r.
-    simpl in Hok, Hnb. rewrite andb_true_r in Hok, Hnb. apply negb_true_iff in Hnb.
+    simpl in Hok. rewrite andb_true_r in Hok.
     apply column_leads; assumption.
-  - simpl in Hok, Hnb. apply andb_prop in Hok. destruct Hok as [Hok1 Hok2].
-    apply andb_prop in Hnb. destruct Hnb as [Hnb1 Hnb2]. apply negb_true_iff in Hnb1.
+  - simpl in Hok. apply andb_prop in Hok. destruct Hok as [Hok1 Hok2].
     set (post := String " " (colbody c2 +++ print_tuple rest +++ fin)).
     assert (Hm1 : msg = a +++ colbody c +++ post).
     { rewrite Hmsg. unfold post. rewrite print_tuple_cons. snorm. reflexivity. }
-    destruct (column_leads pre msg c a post p ok cn0 ct0 r Hm1 Hok1 Hnb1 Hp
+    destruct (column_leads pre msg c a post p ok cn0 ct0 r Hm1 Hok1 Hp
                 ltac:(right; eexists; reflexivity)) as [_ A2].
     destruct (A2 _ eq_refl) as [cn' [ct' L1]].
     set (a2 := (a +++ colbody c) +++ String " " "").
@@ -668,10 +713,9 @@ Proof.
     assert (Hm2 : msg = a2 +++ colbody c2 +++ print_tuple rest +++ fin).
     { rewrite Hm1. unfold a2, post. rewrite !sapp_assoc. reflexivity. }
     assert (Hok' : tuple_ok (c2 :: rest) = true) by exact Hok2.
-    assert (Hnb' : tuple_nobit (c2 :: rest) = true) by exact Hnb2.
     pose proof (IH c2 a2 fin SColValue ok cn' ct'
                   (set_col ok (quote_ident (c_name c)) (exp_colval c) r)
-                  Hm2 Hok' Hnb' ltac:(discriminate) Hfin) as A.
+                  Hm2 Hok' ltac:(discriminate) Hfin) as A.
     rewrite Hl2 in A.
     replace (length a + length (colbody c +++ print_tuple (c2 :: rest)))
       with (S (length a + length (colbody c)) + length (colbody c2 +++ print_tuple rest)).
@@ -748,15 +792,15 @@ Definition apply_tuple (ok : bool) (t : option tuple) (r : parse_result) : parse
   match t with None => set_notuple r | Some t => set_cols ok t r end.
 
 Lemma tuple_opt_leads : forall pre msg t a p ok cn ct r,
-  msg = a +++ opt_body t -> last_tuple_ok t = true -> tuple_no_bit t = true -> p <> SQuoted ->
+  msg = a +++ opt_body t -> last_tuple_ok t = true -> p <> SQuoted ->
   exists st', cur st' = SEnd /\
     leads pre msg (length a) (mkSt SColName p (length a) ok cn ct) r (S (length msg)) st' (apply_tuple ok t r).
 Proof.
-  intros pre msg [[|c rest]|] a p ok cn ct r Hmsg Hok Hnb Hp.
+  intros pre msg [[|c rest]|] a p ok cn ct r Hmsg Hok Hp.
   - discriminate.
   - simpl in Hok, Hmsg.
     assert (Hm : msg = a +++ colbody c +++ print_tuple rest +++ "") by (rewrite sapp_nil_r; exact Hmsg).
-    destruct (tuple_leads pre msg rest c a "" p ok cn ct r Hm Hok Hnb Hp (or_introl eq_refl)) as [A1 _].
+    destruct (tuple_leads pre msg rest c a "" p ok cn ct r Hm Hok Hp (or_introl eq_refl)) as [A1 _].
     exact (A1 eq_refl).
   - apply notuple_leads. exact Hmsg.
 Qed.
@@ -764,14 +808,14 @@ Qed.
 (* " old-key:" tuple " new-tuple:" — from the column-start position after "UPDATE: " *)
 Lemma old_section_leads : forall pre msg o a X p ok cn ct r,
   msg = a +++ "old-key:" +++ print_tuple o +++ " new-tuple:" +++ String " " X ->
-  tuple_ok o = true -> tuple_nobit o = true -> p <> SQuoted ->
+  tuple_ok o = true -> p <> SQuoted ->
   exists p' cn' ct', p' <> SQuoted /\
     leads pre msg (length a) (mkSt SColName p (length a) ok cn ct) r
       (length a + length ("old-key:" +++ print_tuple o +++ " new-tuple: "))
       (mkSt SColName p' (length a + length ("old-key:" +++ print_tuple o +++ " new-tuple: ")) false cn' ct')
       (set_cols true o r).
 Proof.
-  intros pre msg o a X p ok cn ct r Hmsg Hok Hnb Hp.
+  intros pre msg o a X p ok cn ct r Hmsg Hok Hp.
   destruct o as [|c rest].
   - (* empty old tuple: "old-key: new-tuple: " *)
     simpl print_tuple in *.
@@ -797,7 +841,7 @@ Proof.
     assert (Hl2 : length a2 = length a + length "old-key" + 2) by (unfold a2; rewrite !slen_app; simpl; lia).
     assert (Hm2 : msg = a2 +++ colbody c +++ print_tuple rest +++ fin)
       by (rewrite Hm1; unfold a2; snorm; reflexivity).
-    destruct (tuple_leads pre msg rest c a2 fin p1 (marker_flag "old-key" ok) cn ct r Hm2 Hok Hnb Hp1
+    destruct (tuple_leads pre msg rest c a2 fin p1 (marker_flag "old-key" ok) cn ct r Hm2 Hok Hp1
                 ltac:(right; eexists; reflexivity)) as [_ A2].
     destruct (A2 _ eq_refl) as [cn' [ct' L2]]. rewrite Hl2 in L2.
     set (a3 := (a2 +++ colbody c +++ print_tuple rest) +++ String " " "").
@@ -1057,11 +1101,11 @@ Proof. intros [t|] b c o; simpl; [apply set_cols_false | reflexivity]. Qed.
 Lemma simple_dml : forall R op t,
   scan false rel_stop MTop R = true -> str_all not_colon op = true ->
   String.eqb op "TRUNCATE" = false ->
-  last_tuple_ok t = true -> tuple_no_bit t = true ->
+  last_tuple_ok t = true ->
   parse_full ("table " +++ R +++ ": " +++ op +++ ":" +++ print_tuple_opt t) =
     Ok (mkPR "" R op (is_none t) (opt_cols t) []).
 Proof.
-  intros R op t HR Hop Hnt Hok Hnb. rewrite (print_tuple_opt_body t Hok).
+  intros R op t HR Hop Hnt Hok. rewrite (print_tuple_opt_body t Hok).
   unfold parse_full. rewrite (dml_prelude R op (String " " (opt_body t)) empty_result HR Hop Hnt eq_refl).
   rewrite (dml_columns R op (opt_body t) _ (apply_tuple false t (mkPR "" R op false [] [])) HR Hop Hnt).
   - now rewrite apply_tuple_false.
@@ -1070,13 +1114,13 @@ Qed.
 
 Lemma update_with_old : forall R o t,
   scan false rel_stop MTop R = true ->
-  tuple_ok o = true -> tuple_nobit o = true ->
-  last_tuple_ok t = true -> tuple_no_bit t = true ->
+  tuple_ok o = true ->
+  last_tuple_ok t = true ->
   parse_full ("table " +++ R +++ ": " +++ "UPDATE" +++ ":" +++
               " old-key:" +++ print_tuple o +++ " new-tuple:" +++ print_tuple_opt t) =
     Ok (mkPR "" R "UPDATE" (is_none t) (opt_cols t) (exp_cols [] o)).
 Proof.
-  intros R o t HR Hoo Hnbo Hok Hnb. rewrite (print_tuple_opt_body t Hok).
+  intros R o t HR Hoo Hok. rewrite (print_tuple_opt_body t Hok).
   set (T' := "old-key:" +++ print_tuple o +++ " new-tuple:" +++ String " " (opt_body t)).
   change (" old-key:" +++ print_tuple o +++ " new-tuple:" +++ String " " (opt_body t)) with (String " " T').
   unfold parse_full. rewrite (dml_prelude R "UPDATE" (String " " T') empty_result HR eq_refl eq_refl eq_refl).
@@ -1088,13 +1132,13 @@ Proof.
     assert (Hm1 : msg = a +++ "old-key:" +++ print_tuple o +++ " new-tuple:" +++ String " " (opt_body t))
       by exact Hma.
     destruct (old_section_leads false msg o a (opt_body t) p false "" ""
-                (set_op (set_rel empty_result R) "UPDATE") Hm1 Hoo Hnbo Hp) as [p2 [cn' [ct' [Hp2 L1]]]].
+                (set_op (set_rel empty_result R) "UPDATE") Hm1 Hoo Hp) as [p2 [cn' [ct' [Hp2 L1]]]].
     set (a2 := a +++ "old-key:" +++ print_tuple o +++ " new-tuple: ").
     assert (Hl2 : length a2 = length a + length ("old-key:" +++ print_tuple o +++ " new-tuple: "))
       by (unfold a2; rewrite slen_app; reflexivity).
     assert (Hm2 : msg = a2 +++ opt_body t) by (rewrite Hm1; unfold a2; snorm; reflexivity).
     destruct (tuple_opt_leads false msg t a2 p2 false cn' ct'
-                (set_cols true o (set_op (set_rel empty_result R) "UPDATE")) Hm2 Hok Hnb Hp2)
+                (set_cols true o (set_op (set_rel empty_result R) "UPDATE")) Hm2 Hok Hp2)
       as [st' [Hc L2]].
     rewrite Hl2 in L2. exists st'. split; [exact Hc|].
     eapply leads_trans; [exact L1 | exact L2].
@@ -1195,22 +1239,21 @@ Lemma flags_head : forall rs ca : bool,
              else " (no-flags)") = " "%char.
 Proof. intros [] []; reflexivity. Qed.
 
-Theorem roundtrip_nobit : forall c, WF c = true -> no_bit c = true -> parse_full (print c) = Ok (expected c).
+Theorem roundtrip : forall c, WF c = true -> parse_full (print c) = Ok (expected c).
 Proof.
-  intros c Hwf Hnb. destruct c as [x|x|ns rel new|ns rel old new|ns rel old|rels rs ca]; unfold print, expected.
+  intros c Hwf. destruct c as [x|x|ns rel new|ns rel old new|ns rel old|rels rs ca]; unfold print, expected.
   - destruct (dec_shape x) as [d [ds [E Hd]]]. rewrite E. unfold parse_full.
     rewrite parse_begin, (fields_begin d ds Hd). cbv beta iota.
     rewrite parse_begin, (fields_begin d ds Hd). reflexivity.
   - destruct (dec_shape x) as [d [ds [E Hd]]]. rewrite E. unfold parse_full.
     rewrite parse_commit, (fields_commit d ds Hd). cbv beta iota.
     rewrite parse_commit, (fields_commit d ds Hd). reflexivity.
-  - exact (simple_dml (qualified ns rel) "INSERT" new (scan_qualified ns rel) eq_refl eq_refl Hwf Hnb).
-  - simpl in Hwf, Hnb. apply andb_prop in Hwf. destruct Hwf as [Hwo Hwn].
-    apply andb_prop in Hnb. destruct Hnb as [Hno Hnn].
+  - exact (simple_dml (qualified ns rel) "INSERT" new (scan_qualified ns rel) eq_refl eq_refl Hwf).
+  - simpl in Hwf. apply andb_prop in Hwf. destruct Hwf as [Hwo Hwn].
     destruct old as [o|].
-    + exact (update_with_old (qualified ns rel) o new (scan_qualified ns rel) Hwo Hno Hwn Hnn).
-    + exact (simple_dml (qualified ns rel) "UPDATE" new (scan_qualified ns rel) eq_refl eq_refl Hwn Hnn).
-  - exact (simple_dml (qualified ns rel) "DELETE" old (scan_qualified ns rel) eq_refl eq_refl Hwf Hnb).
+    + exact (update_with_old (qualified ns rel) o new (scan_qualified ns rel) Hwo Hwn).
+    + exact (simple_dml (qualified ns rel) "UPDATE" new (scan_qualified ns rel) eq_refl eq_refl Hwn).
+  - exact (simple_dml (qualified ns rel) "DELETE" old (scan_qualified ns rel) eq_refl eq_refl Hwf).
   - unfold parse_full.
     pose proof (fun pre r => truncate_parse pre (print_rels rels) _ r (scan_rels rels) (flags_head rs ca)) as P.
     change ("table " +++ print_rels rels +++ ": TRUNCATE:" +++
@@ -1275,91 +1318,4 @@ Proof.
   rewrite IH.
   - rewrite <- app_assoc. reflexivity.
   - rewrite map_app. simpl. rewrite <- app_assoc. exact H.
-Qed.
-
-(* ------------------------------------------------------------------------------------------ *)
-(* [expected c] is accepted by the acceptance relation of the full statement *)
-
-Definition mapv {A B} (f : A -> B) (m : list (string * A)) : list (string * B) :=
-  map (fun kv => (fst kv, f (snd kv))) m.
-
-Lemma aset_mapv : forall A B (f : A -> B) k v m, aset k (f v) (mapv f m) = mapv f (aset k v m).
-Proof.
-  induction m as [|[k' v'] m IH]; simpl; [reflexivity|].
-  destruct (String.eqb k k'); simpl; [reflexivity | now rewrite IH].
-Qed.
-
-Lemma aget_mapv : forall A B (f : A -> B) k m, aget k (mapv f m) = option_map f (aget k m).
-Proof.
-  induction m as [|[k' v'] m IH]; simpl; [reflexivity|].
-  destruct (String.eqb k k'); [reflexivity | exact IH].
-Qed.
-
-Lemma exp_cols_abs : forall t m, exp_cols (mapv exp_colval m) t = mapv exp_colval (exp_abs m t).
-Proof.
-  induction t as [|c t IH]; intros m; simpl; [reflexivity|].
-  rewrite aset_mapv. apply IH.
-Qed.
-
-Lemma aset_keys_in : forall A x k (v : A) m, In x (map fst (aset k v m)) -> x = k \/ In x (map fst m).
-Proof.
-  induction m as [|[k' v'] m IH]; simpl; intros H.
-  - destruct H as [H|[]]; now left.
-  - destruct (String.eqb_spec k k') as [->|Hne]; simpl in H.
-    + destruct H as [H|H]; [right; now left | right; now right].
-    + destruct H as [H|H]; [right; now left|]. destruct (IH H); [now left | right; now right].
-Qed.
-
-Lemma aset_nodup : forall A k (v : A) m, NoDup (map fst m) -> NoDup (map fst (aset k v m)).
-Proof.
-  induction m as [|[k' v'] m IH]; simpl; intros H.
-  - constructor; [intros [] | constructor].
-  - destruct (String.eqb_spec k k') as [->|Hne]; simpl; [exact H|].
-    inversion H as [|? ? Hnot Hnd]; subst. constructor; [|now apply IH].
-    intros Hin. destruct (aset_keys_in _ _ _ _ _ Hin) as [E|Hin']; [now apply Hne | contradiction].
-Qed.
-
-Lemma exp_abs_nodup : forall t m, NoDup (map fst m) -> NoDup (map fst (exp_abs m t)).
-Proof. induction t as [|c t IH]; intros m H; simpl; [exact H | apply IH, aset_nodup, H]. Qed.
-
-Lemma aget_in_nodup : forall A k (v : A) m, NoDup (map fst m) -> In (k, v) m -> aget k m = Some v.
-Proof.
-  induction m as [|[k' v'] m IH]; simpl; intros Hnd Hin; [contradiction|].
-  inversion Hnd as [|? ? Hnot Hnd']; subst.
-  destruct Hin as [E|Hin].
-  - inversion E; subst. now rewrite String.eqb_refl.
-  - destruct (String.eqb_spec k k') as [->|Hne]; [|now apply IH].
-    exfalso. apply Hnot. change k' with (fst (k', v)). now apply in_map.
-Qed.
-
-Lemma colval_eqb_refl : forall v, colval_eqb v v = true.
-Proof. intros [x t q]. unfold colval_eqb. simpl. rewrite !String.eqb_refl. now destruct q. Qed.
-
-Lemma accept_cols_expected : forall e, NoDup (map fst e) -> accept_cols e (mapv exp_colval e) = true.
-Proof.
-  intros e Hnd. unfold accept_cols. unfold mapv at 1. rewrite map_length, Nat.eqb_refl. simpl.
-  apply forallb_forall. intros [k c] Hin. simpl.
-  rewrite aget_mapv, (aget_in_nodup _ k c e Hnd Hin). simpl.
-  unfold accept_col. now rewrite colval_eqb_refl.
-Qed.
-
-Lemma accept_opt : forall t, accept_cols (opt_abs t) (opt_cols t) = true.
-Proof.
-  intros [t|]; simpl; [|reflexivity].
-  change (@nil (string * colval)) with (mapv exp_colval (@nil (string * col))).
-  rewrite exp_cols_abs. apply accept_cols_expected. apply exp_abs_nodup. constructor.
-Qed.
-
-Lemma accepts_expected : forall c, accepts c (expected c) = true.
-Proof.
-  intros c. unfold accepts.
-  rewrite !String.eqb_refl. replace (Bool.eqb (pr_notuple (expected c)) (pr_notuple (expected c))) with true
-    by (now destruct (pr_notuple (expected c))).
-  destruct c; simpl; rewrite ?accept_opt; reflexivity.
-Qed.
-
-Corollary roundtrip_accepts : forall c, WF c = true -> no_bit c = true ->
-  exists r, parse_full (print c) = Ok r /\ accepts c r = true.
-Proof.
-  intros c Hwf Hnb. exists (expected c). split; [now apply roundtrip_nobit | apply accepts_expected].
 Qed.
